@@ -259,7 +259,18 @@ Subst(t, sigma) ==
 (* open record {f: v}.  st = [cls |-> representative of every reference,   *)
 (* val |-> value denoted by every reference].                              *)
 (*   op = <<"unify", i, j>> | <<"close", i>> | <<"field", i, f, v>>        *)
+(*      | <<"unifyc", i, j>>                                               *)
+(* A store may also hold one CONTAINER per reference i: the open record    *)
+(* {a: ri, ...} (shape "field") or the list [ri] (shape "elem") whose      *)
+(* component is the very reference ri.  "unifyc" unifies the containers of *)
+(* i and j, which constrains exactly ri = rj; container i denotes          *)
+(* Wrap(shape, value of i).                                                *)
 (***************************************************************************)
+Wrap(shape, v) ==
+  IF IsBot(v) THEN Bot
+  ELSE IF shape = "field" THEN Rec("open", <<<<"a", v>>>>)
+  ELSE IF shape = "elem" THEN List(v)
+  ELSE v
 CloseTerm(t) == IF IsRec(t) THEN Rec("closed", t[3]) ELSE t
 
 StoreInit(ts) == [cls |-> [k \in DOMAIN ts |-> k], val |-> ts]
@@ -270,7 +281,7 @@ SetClass(st, members, v) ==
       val |-> [k \in DOMAIN st.val |-> IF k \in members THEN v ELSE st.val[k]]]
 
 StoreApply(st, op) ==
-  CASE op[1] = "unify" ->
+  CASE op[1] \in {"unify", "unifyc"} ->
          SetClass(st, ClassOf(st, op[2]) \cup ClassOf(st, op[3]),
                   Meet(st.val[op[2]], st.val[op[3]]))
     [] op[1] = "close" ->
@@ -285,5 +296,5 @@ StoreClash(st) == \E k \in DOMAIN st.val : IsBot(st.val[k])
 OpEnabled(st, op) ==
   /\ ~StoreClash(st)
   /\ op[1] = "close" => IsRec(st.val[op[2]])
-  /\ op[1] = "unify" => op[2] # op[3]
+  /\ op[1] \in {"unify", "unifyc"} => op[2] # op[3]
 =============================================================================
